@@ -363,7 +363,11 @@ def mutate_value(
             # The transform is user code: it may edit what it is given, or
             # return (parts of) it. Never hand it the live value.
             value = protect_via_deepcopy(value)
-        value = transform(value)
+        transformed = transform(value)
+        # (Whatever else the transform hands back may exist elsewhere, and so
+        # must not be edited by the attribute transforms below.)
+        mutate_safe = mutate_safe and transformed is value
+        value = transformed
 
     # If `attr_transforms` is provided, transform attributes
     if attr_transforms:
